@@ -3,7 +3,7 @@
 import glob, json, os, re
 
 V = os.path.dirname(os.path.dirname(os.path.abspath(__file__)))
-STRENGTHENED = {"C01-m18", "C02-m18", "C04-m17", "C04-m18", "C05-m18", "C08-m18", "C10-m18", "C13-m18", "C14-m17", "C14-m18", "C16-m18", "C17-m17", "C19-m18", "C01-m15", "C02-m16", "C05-m15", "C05-m16", "C10-m15", "C11-m15", "C14-m15", "C14-m16", "C17-m15", "C19-m16", "C01-m13", "C02-m13", "C03-m13", "C06-m13", "C07-m13", "C08-m13", "C08-m14", "C10-m14", "C12-m13", "C13-m13", "C14-m13", "C17-m14", "C13-m11", "C13-m12", "C15-m12", "C17-m11", "C17-m12", "C19-m11", "C19-m12", "C01-m11", "C03-m11", "C04-m11", "C05-m11", "C06-m11", "C08-m11", "C08-m12", "C10-m11", "C11-m10", "C12-m10", "C13-m9", "C14-m10", "C15-m9", "C18-m10", "C19-m10", "C02-m10", "C03-m9", "C04-m9", "C07-m9", "C07-m10", "C09-m9", "C14-m7", "C15-m7", "C17-m7", "C17-m8", "C18-m7", "C18-m8", "C19-m7", "C08-m7", "C11-m7", "C11-m8", "C09-m7", "C09-m8", "C10-m7", "C10-m8", "C12-m7", "C13-m8", "C02-m8", "C03-m8", "C05-m7", "C05-m8", "C06-m8", "C07-m7", "C07-m8", "C12-m5", "C12-m6", "C14-m5", "C14-m6", "C15-m5", "C15-m6", "C16-m5", "C16-m6", "C17-m5", "C17-m6", "C19-m6", "C02-m6", "C06-m5", "C06-m6", "C07-m5", "C07-m6", "C10-m5", "C11-m5", "C11-m6", "C01-m5", "C03-m6", "C04-m5", "C04-m6", "C05-m5", "C08-m5", "C13-m5", "C13-m6", "C15-m4", "C18-m4", "C13-m3", "C14-m4", "C19-m3", "C19-m4", "C07-m3", "C05-m3", "C05-m4", "C02-m4", "C03-m4", "C01-m3", "C01-m4", "C15-m1", "C01-m1", "C01-m2", "C03-m2", "C04-m1", "C07-m2", "C13-m1", "C14-m1", "C16-m2", "C18-m2", "C19-m2", "C12-m2"}
+STRENGTHENED = {"C02-m20", "C03-m19", "C03-m20", "C04-m19", "C05-m19", "C05-m20", "C06-m19", "C07-m19", "C08-m19", "C08-m20", "C09-m19", "C10-m19", "C10-m20", "C12-m19", "C14-m20", "C16-m19", "C17-m19", "C18-m19", "C18-m20", "C19-m20", "C01-m18", "C02-m18", "C04-m17", "C04-m18", "C05-m18", "C08-m18", "C10-m18", "C13-m18", "C14-m17", "C14-m18", "C16-m18", "C17-m17", "C19-m18", "C01-m15", "C02-m16", "C05-m15", "C05-m16", "C10-m15", "C11-m15", "C14-m15", "C14-m16", "C17-m15", "C19-m16", "C01-m13", "C02-m13", "C03-m13", "C06-m13", "C07-m13", "C08-m13", "C08-m14", "C10-m14", "C12-m13", "C13-m13", "C14-m13", "C17-m14", "C13-m11", "C13-m12", "C15-m12", "C17-m11", "C17-m12", "C19-m11", "C19-m12", "C01-m11", "C03-m11", "C04-m11", "C05-m11", "C06-m11", "C08-m11", "C08-m12", "C10-m11", "C11-m10", "C12-m10", "C13-m9", "C14-m10", "C15-m9", "C18-m10", "C19-m10", "C02-m10", "C03-m9", "C04-m9", "C07-m9", "C07-m10", "C09-m9", "C14-m7", "C15-m7", "C17-m7", "C17-m8", "C18-m7", "C18-m8", "C19-m7", "C08-m7", "C11-m7", "C11-m8", "C09-m7", "C09-m8", "C10-m7", "C10-m8", "C12-m7", "C13-m8", "C02-m8", "C03-m8", "C05-m7", "C05-m8", "C06-m8", "C07-m7", "C07-m8", "C12-m5", "C12-m6", "C14-m5", "C14-m6", "C15-m5", "C15-m6", "C16-m5", "C16-m6", "C17-m5", "C17-m6", "C19-m6", "C02-m6", "C06-m5", "C06-m6", "C07-m5", "C07-m6", "C10-m5", "C11-m5", "C11-m6", "C01-m5", "C03-m6", "C04-m5", "C04-m6", "C05-m5", "C08-m5", "C13-m5", "C13-m6", "C15-m4", "C18-m4", "C13-m3", "C14-m4", "C19-m3", "C19-m4", "C07-m3", "C05-m3", "C05-m4", "C02-m4", "C03-m4", "C01-m3", "C01-m4", "C15-m1", "C01-m1", "C01-m2", "C03-m2", "C04-m1", "C07-m2", "C13-m1", "C14-m1", "C16-m2", "C18-m2", "C19-m2", "C12-m2"}
 
 
 def main():
